@@ -160,6 +160,12 @@ class InterpStmts:
             yield ("next", st, None)
             return
         hint = self.annotation_kind(stmt.annotation)
+        if isinstance(stmt.target, ast.Name):
+            info = self.frame_func.get(st.cur)
+            if info is not None:
+                h2 = ((self.cset.functions.get(info[1]) or {}).get("vars") or {}).get(stmt.target.id)
+                if h2 is not None:
+                    hint = parse_kind(h2)       # the contract's kind wins over the source annotation
         for v, s in self.eval(stmt.value, st):
             if hint is not None and not isinstance(v, self.SV) and isinstance(v, (list, dict, set)) and not v:
                 v = self.SV(hint, default_tree(hint))
@@ -363,6 +369,11 @@ class InterpStmts:
             newd = dict(base)
             newd[idx] = v
             return [st.setvar(name, newd, fid)]
+        if isinstance(base, SV) and base.kind.tag == "opt":
+            out = []
+            for _, s in self.partial(st, z3.Not(base.tree[0]), "TypeError", None):
+                out.extend(self.setitem(s, SV(base.kind.args[0], base.tree[1], ("optval", base.origin, base.kind) if base.origin else None), idx, v))
+            return out
         if not isinstance(base, SV):
             h = self.lib.get("setitem:" + getattr(base, "name", type(base).__name__))
             if h:
@@ -967,6 +978,10 @@ class InterpStmts:
                                                        ("item", v.origin, v.kind, i) if v.origin else None))
             if t == "tuple":
                 return IterSpec("concrete", items=[SV(k, x) for k, x in zip(v.kind.args, v.tree)])
+            if t == "opt":
+                if not st.pure:
+                    self.emit(st, "defined", "not-None(iter)", z3.Not(v.tree[0]))
+                return self.to_iterspec(st, SV(v.kind.args[0], v.tree[1], v.origin))
             if t == "obj":
                 mod = self.class_module(v.kind.extra)
                 q = "%s.__iter__" % v.kind.extra
